@@ -49,6 +49,36 @@ def gen_crash(rng, sid, pid):
     return sc
 
 
+def crash_gc_templates():
+    """in-place rewrites whose relocated multi-block record overlaps its own old copy (dead data in front of it is
+    smaller than the record), so that a torn copy leaves a header claiming a length that reaches over the intact old
+    copy; plus destinations below the range and two-file ranges.  Every fs boundary and torn cut is recovered."""
+    out = []
+    n = 0
+    for big in (2, 3):
+        for dead in (1, 2):
+            for tail in (0, 1, 2):
+                for rng_ in ((0, 0), (0, -1)):
+                    fm = dead + big + tail + 1 + (1 if tail == 0 else 0)
+                    ops = []
+                    for i in range(dead):
+                        ops.append({'op': 'set', 'k': 'x', 'v': 1 + i, 'nblk': 1})          # superseded below
+                    ops.append({'op': 'set', 'k': 'r', 'v': 5, 'nblk': big})                   # the multi-block survivor
+                    for i in range(tail):
+                        ops.append({'op': 'set', 'k': 'y%d' % i, 'v': 6 + i, 'nblk': 1})
+                    ops.append({'op': 'set', 'k': 'x', 'v': 9, 'nblk': 1})                     # supersedes the dead ones
+                    # fill file 0 so that the next record rotates, then a second file with data
+                    ops.append({'op': 'set', 'k': 'z', 'v': 3, 'nblk': big})
+                    ops.append({'op': 'set', 'k': 'z', 'v': 4, 'nblk': 1})
+                    ops += [{'op': 'flush'}, {'op': 'gc', 'begin': rng_[0], 'end': rng_[1], 'merge': False}, {'op': 'close'}]
+                    out.append({'id': 'cgt-%03d' % n, 'family': 'crash',
+                                'conf': {'filemax_blk': fm, 'splitcap': 100, 'bodymax_blk': big, 'rotflush': 'auto', 'crash': True,
+                                         'maxtorn': 8, 'buckets': 16, 'bucket': 15, 'height': 3, 'micro': False},
+                                'ops': ops})
+                    n += 1
+    return out
+
+
 def run(pid, tier, seed, work, log, replay=None):
     t0 = time.time()
     res = {'violations': [], 'known': [], 'drift': [], 'lead': [], 'coverage': {}}
@@ -73,6 +103,9 @@ def run(pid, tier, seed, work, log, replay=None):
         rng = random.Random(seed * 104729 + (6 if pid == 'C06' else 7))
         n = {'quick': 32 if pid == 'C06' else 20, 'thorough': 600}[tier]
         scen = [gen_crash(rng, '%s-%d-%04d' % (pid.lower(), seed, i), pid) for i in range(n)]
+        if pid == 'C07':
+            tpl = crash_gc_templates()
+            scen += tpl if tier == 'thorough' else rng.sample(tpl, 12)
         fixed = os.path.join(V.VERIF, 'scenarios', 'fixed', pid)
         if os.path.isdir(fixed):
             for f in sorted(os.listdir(fixed)):
